@@ -265,4 +265,153 @@ theorem unpack_schedule_eq (c : String) (ks : List String) (vs : List V) (msg : 
     simp [weekV, decodeWeek, slotsPerDay, List.map_map, Function.comp_def]
   · rw [if_neg h, if_neg h, bind_err]
 
+/-! ### `decode` -/
+
+/-- one schedule as the code lists it: `(index, week)` -/
+def schedV (e : Entry) : V := .tuple [.int (e.idx : Int), weekV e.table]
+
+/-- the parameters the code lists for one entry: the switch as `(2·index, ParameterValues(switch, 0, 1))`, and, unless the
+triple is undefined (FF FF FF), `(2·index + 1, ParameterValues(value, min, max))` -/
+def paramsOfEntry (idx sw pv pmin pmax : UInt8) : List V :=
+  [.tuple [.int ((idx.toNat * 2 : Nat) : Int), tripleV (sw.toNat, 0, 1)]] ++
+    (match P2.unpackParam 1 [pv, pmin, pmax] with
+     | some t => [.tuple [.int ((idx.toNat * 2 + 1 : Nat) : Int), tripleV t]]
+     | none => [])
+
+/-- the `schedule_parameters` list of `n` entries laid out from `s` on (47 bytes each) -/
+def rawParams : Nat → List UInt8 → List V
+  | 0, _ => []
+  | n + 1, idx :: sw :: pv :: pmin :: pmax :: r => paramsOfEntry idx sw pv pmin pmax ++ rawParams n (r.drop 42)
+  | _ + 1, _ => []
+
+theorem sched_fold (c : String) (ks : List String) (vs : List V) (msg : List UInt8)
+    (body : V → V × V × V → PyM (V × V × V))
+    (hstep : ∀ (x : V) (off : Nat) (accS accP : List V), body x (.list accS, .list accP, withOff c ks vs off) =
+      match msg.drop off with
+      | idx :: sw :: pv :: pmin :: pmax :: r =>
+        if r.length < 42 then .error .IndexError
+        else .ok (.list (accS ++ [.tuple [.int (idx.toNat : Int), weekV (decodeWeek (r.take 42))]]),
+                  .list (accP ++ paramsOfEntry idx sw pv pmin pmax), withOff c ks vs (off + 47))
+      | _ => .error .IndexError)
+    (xs : List V) (off : Nat) (accS accP : List V) :
+    List.foldlM (fun s x => body x s) (V.list accS, V.list accP, withOff c ks vs off) xs
+      = match decodeEntries xs.length (msg.drop off) with
+        | none => .error .IndexError
+        | some es => .ok (.list (accS ++ es.map schedV), .list (accP ++ rawParams xs.length (msg.drop off)),
+            withOff c ks vs (off + 47 * xs.length)) := by
+  induction xs generalizing off accS accP with
+  | nil => simp [decodeEntries, rawParams]
+  | cons x xs ih =>
+    rw [List.foldlM_cons, hstep]
+    have g42 : Gen.scheduleSize = 42 := rfl
+    simp only [List.length_cons, decodeEntries, g42]
+    generalize hm : msg.drop off = d
+    match d, hm with
+    | idx :: sw :: pv :: pmin :: pmax :: r, hm =>
+      by_cases hl : r.length < 42
+      · simp [hl, bind_err]
+      · have hd : msg.drop (off + 47) = r.drop 42 := by
+          have : msg.drop (off + 47) = (msg.drop off).drop 47 := by rw [List.drop_drop]
+          rw [this, hm]; rfl
+        simp only [hl, if_false, bind_ok, ih, hd]
+        cases decodeEntries xs.length (r.drop 42) with
+        | none => rfl
+        | some es =>
+          have e1 : off + 47 + 47 * xs.length = off + 47 * (xs.length + 1) := by omega
+          simp [schedV, rawParams, e1, List.append_assoc]
+    | [], _ => simp [bind_err]
+    | [_], _ => simp [bind_err]
+    | [_, _], _ => simp [bind_err]
+    | [_, _, _], _ => simp [bind_err]
+    | [_, _, _, _], _ => simp [bind_err]
+
+theorem tryExcept_ok {α : Type} (a : α) (cs : List Catch) (h : PyM α) : Py.tryExcept (.ok a) cs h = .ok a := rfl
+theorem tryExcept_index {α : Type} (h : PyM α) :
+    Py.tryExcept (.error .IndexError) [Catch.cls PyErr.IndexError] h = h := rfl
+
+theorem ensure_dict_eq1 (data : V) (h : dataOk data) (ks : List String) (vs : List V) :
+    PyCode.ensure_dict data (.tuple [.dict ks vs]) = .ok (merge1 data ks vs) := ensure_dict_eq data h ks vs
+
+
+theorem list_append_list (l : List V) (v : V) : Py.list_append (.list l) v = .ok (.list (l ++ [v])) := rfl
+theorem mul_two (a : Nat) : Py.mul (.int (a : Int)) (.int 2) = .ok (.int ((a * 2 : Nat) : Int)) := mul_nat a 2
+theorem truthy_isNotNone_slotV (s : Option P2.Triple) : Py.truthy (Py.isNotNone (slotV s)) = .ok s.isSome := by
+  cases s <;> rfl
+theorem unpackParam_three (a b c : UInt8) (r : List UInt8) : P2.unpackParam 1 (a :: b :: c :: r) = P2.unpackParam 1 [a, b, c] := by
+  simp [P2.unpackParam]
+theorem cast_add_5 (a : Nat) : (a : Int) + 5 = ((a + 5 : Nat) : Int) := by simp
+
+/-- **`SchedulesStructure.decode(message, offset, data)`** on ANY instance: a message with fewer than three bytes from
+`offset` on decodes to "no schedules" (offset unchanged, no `schedule_parameters` key); otherwise byte `offset + 2` is the
+number of entries and the result is the model's `Sched.decodeResponse (message[offset:])` — `(index, week)` per entry, the
+parameter list `rawParams`, the returned offset `offset + 3 + 47·count`, IndexError when the model fails -/
+theorem schedules_decode_eq (c : String) (ks : List String) (vs : List V) (msg : List UInt8) (off : Nat) (data : V)
+    (hd : dataOk data) :
+    PyCode.SchedulesStructure_decode (.obj c ks vs) (.bytes msg) (.int (off : Int)) data
+      = if msg.length < off + 3 then .ok (.tuple [merge1 data ["schedules"] [.list []], .int (off : Int)], .obj c ks vs)
+        else match decodeResponse (msg.drop off) with
+          | none => .error .IndexError
+          | some es =>
+            let n := (msg.getD (off + 2) 0).toNat
+            .ok (.tuple [merge1 data ["schedules", "schedule_parameters"]
+                    [.list (es.map schedV), .list (rawParams n (msg.drop (off + 3)))], .int ((off + 3 + 47 * n : Nat) : Int)],
+                 withOff c ks vs (off + 3 + 47 * n)) := by
+  unfold PyCode.SchedulesStructure_decode
+  simp only [add_int', cast_add_one, cast_add_2, cast_add_3, bind_ok, index_bytes_nat]
+  by_cases hl : msg.length < off + 3
+  · rw [if_pos hl]
+    have h2 : msg[off + 2]? = none := List.getElem?_eq_none (by omega)
+    cases h1 : msg[off + 1]? with
+    | none => simp only [bind_err, tryExcept_index, ensure_dict_eq1 _ hd, bind_ok]; rfl
+    | some b => simp only [h2, bind_ok, bind_err, tryExcept_index, ensure_dict_eq1 _ hd]; rfl
+  · rw [if_neg hl]
+    have h1 : msg[off + 1]? = some (msg[off + 1]'(by omega)) := List.getElem?_eq_getElem (by omega)
+    have h2 : msg[off + 2]? = some (msg[off + 2]'(by omega)) := List.getElem?_eq_getElem (by omega)
+    simp only [h1, h2, bind_ok, tryExcept_ok, setattr_obj, byteV_nat, ← Int.natCast_add, range_nat, Nat.add_sub_cancel_left, forLoop_list]
+    simp only [pure_eq_ok, tryExcept_ok, bind_ok, add_int', ← Int.natCast_add, range_nat, Nat.add_sub_cancel_left, forLoop_list]
+    rw [sched_fold c ks vs msg]
+    · have hlen : (rangeV msg[off + 1].toNat msg[off + 2].toNat).length = msg[off + 2].toNat := by simp [rangeV]
+      have hd3 : msg.drop off = msg[off]'(by omega) :: msg[off + 1]'(by omega) :: msg[off + 2]'(by omega) :: msg.drop (off + 3) := by
+        rw [List.drop_eq_getElem_cons (by omega), List.drop_eq_getElem_cons (by omega), List.drop_eq_getElem_cons (by omega)]
+      have hg : (msg.getD (off + 2) 0) = msg[off + 2]'(by omega) := by
+        simp [List.getD_eq_getElem?_getD, h2]
+      rw [hlen, hd3, hg]
+      simp only [decodeResponse]
+      cases decodeEntries msg[off + 2].toNat (msg.drop (off + 3)) with
+      | none => rfl
+      | some es => simp only [bind_ok, List.nil_append, ensure_dict_eq1 _ hd, getattr_withOff]
+    · intro x o accS accP
+      simp only [getattr_withOff, bind_ok, index_bytes_nat, add_int', cast_add_one, cast_add_2, cast_add_5, unpack_eq1, setattr_withOff,
+        unpack_schedule_eq]
+      have h0 : msg[o]? = (msg.drop o)[0]? := by simp
+      have hl' : (msg.drop o).length = msg.length - o := List.length_drop
+      rw [h0, getElem?_off msg o 1]
+      have hd2 : msg.drop (o + 2) = (msg.drop o).drop 2 := by rw [List.drop_drop]
+      have hd5 : msg.drop (o + 5) = (msg.drop o).drop 5 := by rw [List.drop_drop]
+      rw [hd2, hd5]
+      generalize hm : msg.drop o = d at hl'
+      match d, hl' with
+      | [], _ => simp [bind_err]
+      | [_], _ => simp [bind_err]
+      | [_, _], hl' =>
+        have : ¬ o + 5 + 42 ≤ msg.length := by simp at hl'; omega
+        simp [bind_ok, bind_err, this]
+      | [_, _, _], hl' =>
+        have : ¬ o + 5 + 42 ≤ msg.length := by simp at hl'; omega
+        simp [bind_ok, bind_err, this]
+      | [_, _, _, _], hl' =>
+        have : ¬ o + 5 + 42 ≤ msg.length := by simp at hl'; omega
+        simp [bind_ok, bind_err, this]
+      | idx :: sw :: pv :: pmin :: pmax :: r, hl' =>
+        have hlen : msg.length = o + 5 + r.length := by simp at hl'; omega
+        simp only [List.getElem?_cons_zero, List.getElem?_cons_succ, bind_ok, List.drop_succ_cons, List.drop_zero, unpackParam_three]
+        by_cases hr : r.length < 42
+        · have : ¬ o + 5 + 42 ≤ msg.length := by omega
+          simp [this, hr, bind_err]
+        · have : o + 5 + 42 ≤ msg.length := by omega
+          simp only [this, hr, if_true, if_false, bind_ok, byteV_nat, list_append_list, mul_two, truthy_isNotNone_slotV]
+          cases hu : P2.unpackParam 1 [pv, pmin, pmax] with
+          | none => simp [paramsOfEntry, hu, tripleV, Py.mkobj]
+          | some t => simp [paramsOfEntry, hu, tripleV, Py.mkobj, bind_ok, add_int', cast_add_one, list_append_list, slotV]
+
 end PlumVerif.TieStructSchedules
